@@ -1,4 +1,5 @@
 import Ptn.C19.Model
+import Ptn.C19.Special
 /-! Line-protocol handler for the C19 model (core Lean only).
 
   grid <rows> <cols>                → `i_j-k_l,…`              pair list of `_find_nn_pairs`
@@ -8,6 +9,11 @@ import Ptn.C19.Model
   isinggrid <rows> <cols>           → same, sites printed `i_j`
   qrshape <id:parent> … | <ld_0> …  → `a,b,…`  (`ld_k` = leg of the node with identifier `k`)
   fromtensor <id:parent> … | <ld…>  → `id:parent:children:legs;…`  legs `b<p>.<c>` or axis numbers
+  star <cshape> <c>:<shape> …       → `id:parent:children:legs:dims;…` ids `C`, `<c>.<j>`; shapes `d,d,…` (`-` = scalar)
+  starconst <d> <L> <C>             → same (`constant_product_state(·, d, chain_length L, num_chains C)`)
+  fork m:<shape> s<i>:<shape> …     → same, ids `M<i>`, `S<i>.<j>`
+  forkconst <d> <width> <height> <bd> → same (`constant_ftps`)
+  binary <nphys> <bd> <d>           → same, ids `V<level>.<pos>`, `P<k>` (`generate_binary_ttns`)
 -/
 namespace Ptn.C19
 
@@ -87,8 +93,72 @@ def parseLegDict (items : List (Nat × Option Nat)) (ld : List Nat) : Option (Na
   if ld.length = n ∧ (List.range n).all (fun k => ld.contains k) ∧ items.all (fun it => it.1 < n)
   then some fun i => ld.getD i 0 else none
 
+def parseShape (t : String) : Option (List Nat) :=
+  if t = "-" then some [] else (t.splitOn ",").mapM String.toNat?
+
+def showGNode {ι : Type} (f : ι → String) (x : GNode ι) : String :=
+  let p := match x.parent with
+    | none => "-"
+    | some q => f q
+  s!"{f x.id}:{p}:{",".intercalate (x.children.map f)}:{natList x.legs}:{natList x.dims}"
+
+def showGNodes {ι : Type} (f : ι → String) : Option (List (GNode ι)) → String
+  | none => "none"
+  | some ns => ";".intercalate (ns.map (showGNode f))
+
+def showStarId : StarId → String
+  | .center => "C"
+  | .chain c j => s!"{c}.{j}"
+
+def showForkId : ForkId → String
+  | .main i => s!"M{i}"
+  | .sub i j => s!"S{i}.{j}"
+
+def showBinId : BinId → String
+  | .virt l p => s!"V{l}.{p}"
+  | .phys k => s!"P{k}"
+
+def parseStarCall (t : String) : Option (Nat × List Nat) :=
+  match t.splitOn ":" with
+  | [a, b] => do
+    let c ← a.toNat?
+    let sh ← parseShape b
+    pure (c, sh)
+  | _ => none
+
+def parseForkCall (t : String) : Option ForkCall :=
+  match t.splitOn ":" with
+  | [a, b] =>
+    match parseShape b with
+    | none => none
+    | some sh =>
+      if a = "m" then some (.main sh)
+      else if a.startsWith "s" then (a.drop 1).toNat?.map fun i => .sub i sh
+      else none
+  | _ => none
+
 def handle (args : List String) : String :=
   match args with
+  | "star" :: cs :: calls =>
+    match parseShape cs, calls.mapM parseStarCall with
+    | some cshape, some cl => showGNodes showStarId ((starRun cshape cl).map (·.nodes))
+    | _, _ => "bad-op"
+  | ["starconst", a, b, c] =>
+    match a.toNat?, b.toNat?, c.toNat? with
+    | some d, some l, some ch => showGNodes showStarId ((starConst d l ch).map (·.nodes))
+    | _, _, _ => "bad-op"
+  | "fork" :: calls =>
+    match calls.mapM parseForkCall with
+    | some cl => showGNodes showForkId ((forkRun cl).map (·.nodes))
+    | none => "bad-op"
+  | ["forkconst", a, b, c, e] =>
+    match a.toNat?, b.toNat?, c.toNat?, e.toNat? with
+    | some d, some w, some h, some bd => showGNodes showForkId ((ftps d w h bd).map (·.nodes))
+    | _, _, _, _ => "bad-op"
+  | ["binary", a, b, c] =>
+    match a.toNat?, b.toNat?, c.toNat? with
+    | some n, some bd, some d => showGNodes showBinId (binGenerate n bd d)
+    | _, _, _ => "bad-op"
   | ["grid", a, b] =>
     match a.toNat?, b.toNat? with
     | some rows, some cols =>
